@@ -11,6 +11,8 @@ CONSTANTS
   KnownCheck = TRUE
   ResetFree = TRUE
   CmpOK = FALSE
+  ByteReqs = {}
+  DerivedCheck = FALSE
 INVARIANT TypeOK
 INVARIANT InvC
 INVARIANT InvF
